@@ -186,6 +186,28 @@ def ev(name, **kw):
 
 def convert(execution):
     """The FIRST invocation in which the (single, top-level) map/parallel executes -> ExecutorTrace events."""
+    return convert_inv(execution, None)
+
+
+def convert_all(execution):
+    """One trace per invocation in which the (single, top-level) map/parallel executes and that the model can express:
+    the first one, and every later one in which each branch context is either absent or already started (cf.pre) and each
+    operation of a branch body is either absent or completed (completed ones are replayed without a checkpoint: dropped
+    from the script).  Invocations outside this fragment are skipped (counted by the caller)."""
+    out, skipped = [], 0
+    first = True
+    for r in execution.invocations:
+        if not any(x["ev"] == "ExStart" for x in r.events):
+            continue
+        try:
+            out.append(convert_inv(execution, r if not first else None))
+        except Unsupported:
+            skipped += 1
+        first = False
+    return out, skipped
+
+
+def convert_inv(execution, inv_rec):
     prog = execution.prog
     mp = [(k, n) for k, n in enumerate([x for x in prog["nodes"] if x["k"] != "log"], 1) if n["k"] in ("map", "par")]
     if len(mp) != 1:
@@ -206,10 +228,39 @@ def convert(execution):
     step_parent = {}
     thread_branch = {}
     seen_set = False
-    # the invocation where the executor ran for the first time
-    inv = next((r for r in execution.invocations if any(x["ev"] == "ExStart" and x.get("e") == eid for x in r.events)), None)
-    if inv is None:
-        raise Unsupported("executor never started")
+    pre = []
+    if inv_rec is None:
+        # the invocation where the executor ran for the first time
+        inv = next((r for r in execution.invocations if any(x["ev"] == "ExStart" and x.get("e") == eid for x in r.events)), None)
+        if inv is None:
+            raise Unsupported("executor never started")
+    else:
+        inv = inv_rec
+        at = inv.ops_at_start
+        if at.get(eid) != "STARTED":
+            raise Unsupported("the call's own context is not merely started")
+        for bi, body in enumerate(node["branches"]):
+            cst = at.get(path_id(f"{path}/b{bi}"))
+            if cst is None:
+                continue
+            if cst != "STARTED":
+                raise Unsupported("branch context already completed")
+            pre.append(bi + 1)
+            # drop the atoms whose operation is complete (replayed without a checkpoint); everything else must be absent
+            keep, k = [], 0
+            for n in [x for x in body if x["k"] != "log"]:
+                k += 1
+                st = at.get(path_id(f"{path}/b{bi}/{k}"))
+                if st == "SUCCEEDED" and n["k"] in ("step", "wait"):
+                    continue
+                if st is not None:
+                    raise Unsupported(f"operation in state {st} at the start of the invocation")
+                keep.append({"step": "step", "wait": "tsusp", "cb": "susp"}[n["k"]])
+                if n["k"] == "cb":
+                    break
+            if not (keep and keep[-1] == "susp"):
+                keep.append("fail" if bi in braise else "ok")
+            scripts[bi] = keep
     if inv.outcome in ("CRASHED", "HANG"):
         raise Unsupported("crashed invocation")
     cfg = None
@@ -221,7 +272,7 @@ def convert(execution):
             if x.get("e") != eid:
                 raise Unsupported("nested executor")
             cfg = {"script": scripts, "maxc": x["maxc"], "mins": x["mins"], "tolc": x["tolc"], "tolp": x["tolp"],
-                   "tfail": bool(execution.sc.get("faults") or execution.sc.get("faults_after_apply")), "pre": []}
+                   "tfail": bool(execution.sc.get("faults") or execution.sc.get("faults_after_apply")), "pre": pre}
             started = True
             continue
         if not started:
